@@ -48,6 +48,25 @@ def gen_case(rng, tier, i):
         return {"kind": "faces", "op": rng.choice(["diff", "interp", "vecdiff", "vecinterp", "cumsum_refuse_none"][:4]),
                 "axis": rng.choice(["X", "Y"]), "chunks": {"face": composition(rng, 3), "e0": composition(rng, 2)},
                 "seed": rng.randrange(1 << 30)}
+    if rng.random() < 0.1:
+        # one call over two axes, the SAME shift on both, both operated dimensions split into chunks: the same kernel
+        # runs twice in one task graph
+        pos = rng.choice(["left", "right"])
+        axes = [{"name": n_, "n": rng.randint(3, 6), "coords": {"center": n_.lower() + "_c", pos: n_.lower() + "_" + pos[0]}}
+                for n_ in ("X", "Y")]
+        frm, to = rng.choice([("center", pos), (pos, "center")])
+        dims = [(a["coords"][frm], a["n"]) for a in axes]
+        extra = [("e0", 2)] if rng.random() < 0.5 else []
+        dims += extra
+        rng.shuffle(dims)
+        chunks = {d: (composition(rng, s_) if d == "e0" else (lambda c: c if len(c) > 1 else (1, s_ - 1))(composition(rng, s_)))
+                  for d, s_ in dims}
+        return {"kind": "simple", "axis2": {"axis": "Y", "from": frm, "to": to, "first": rng.random() < 0.5},
+                "lazy_coord": False, "dask_mode": "allowed", "pos_all": {"X": frm, "Y": frm}, "bw2": {}, "sig_order": ["X", "Y"],
+                "vector": False, "layout": {"axes": axes, "extra": extra}, "axis": "X", "from": frm, "to": to,
+                "dims": [d for d, _ in dims], "chunks": {k: list(v) for k, v in chunks.items()},
+                "op": rng.choice(["diff", "interp", "min", "max"]), "boundary": rng.choice(["fill", "extend", "periodic"]),
+                "seed": rng.randrange(1 << 30)}
     layout = Layout.random(rng, n_axes=rng.randint(1, 2), nmin=2, nmax=6, max_extra=2)
     ax = rng.choice(layout.axes)
     frm = rng.choice(list(ax["coords"]))
@@ -55,7 +74,7 @@ def gen_case(rng, tier, i):
     dims = [(ax["coords"][frm], pos_len(ax["n"], frm))]
     for a in layout.axes:
         if a is not ax:
-            p = rng.choice(list(a["coords"]))
+            p = frm if (frm in a["coords"] and rng.random() < 0.4) else rng.choice(list(a["coords"]))
             dims.append((a["coords"][p], pos_len(a["n"], p)))
     for d, s in layout.extra:
         dims.append((d, s))
@@ -67,6 +86,7 @@ def gen_case(rng, tier, i):
             chunks[d] = (s,)
         else:
             chunks[d] = composition(rng, s)
+    case_to = rng.choice(tos)
     op = rng.choice(["diff", "interp", "min", "max", "cumsum", "derivative", "integrate", "average", "cumint",
                      "ufunc", "ufunc_overlap"] + (["ufunc2", "ufunc2_overlap"] * 2 if len(layout.axes) == 2 else []))
     pos_all = {ax["name"]: frm}
@@ -81,12 +101,21 @@ def gen_case(rng, tier, i):
     vector = op in ("diff", "interp", "min", "max") and rng.random() < 0.35
     if op.startswith("ufunc2"):
         vector = False
+    axis2 = None
+    if op in ("diff", "interp", "min", "max") and len(layout.axes) == 2 and not vector and rng.random() < 0.5:
+        # one call over both axes (sequential application; the same kernel may run twice in one graph)
+        a2 = next(a for a in layout.axes if a is not ax)
+        f2 = pos_all[a2["name"]]
+        t2s = [q for q in a2["coords"] if q != "center"] if f2 == "center" else ["center"]
+        t2 = case_to if (f2 == frm and case_to in t2s and rng.random() < 0.7) else rng.choice(t2s)   # often the same shift twice
+        axis2 = {"axis": a2["name"], "from": f2, "to": t2, "first": rng.random() < 0.5}
+    lazy_coord = rng.random() < 0.2          # a lazily evaluated non-index coordinate with chunks of its own
     core = [ax["coords"][frm]] if op == "ufunc" else [a["coords"][pos_all[a["name"]]] for a in layout.axes]
     dask_mode = "allowed"
     if op in ("ufunc", "ufunc2") and all(len(chunks[d]) == 1 for d in core) and rng.random() < 0.5:
         dask_mode = "parallelized"        # xarray's own blockwise mode; needs unchunked core dimensions
-    return {"kind": "simple", "dask_mode": dask_mode, "pos_all": pos_all, "bw2": bw2, "sig_order": sig_order, "vector": vector, "layout": {"axes": layout.axes, "extra": layout.extra}, "axis": ax["name"],
-            "from": frm, "to": rng.choice(tos), "dims": [d for d, _ in dims], "chunks": {k: list(v) for k, v in chunks.items()},
+    return {"kind": "simple", "axis2": axis2, "lazy_coord": lazy_coord, "dask_mode": dask_mode, "pos_all": pos_all, "bw2": bw2, "sig_order": sig_order, "vector": vector, "layout": {"axes": layout.axes, "extra": layout.extra}, "axis": ax["name"],
+            "from": frm, "to": case_to, "dims": [d for d, _ in dims], "chunks": {k: list(v) for k, v in chunks.items()},
             "op": op, "boundary": rng.choice(["fill", "extend", "periodic"]), "seed": rng.randrange(1 << 30)}
 
 
@@ -142,9 +171,21 @@ def run_case(case, lazy):
     grid = xgcm.Grid(ds, coords=layout.coords_arg(), boundary=case["boundary"], metrics=metrics, autoparse_metadata=False)
     dims = case["dims"]
     da = xr.DataArray(dyadic_array(rr, [ds.sizes[d] for d in dims]), dims=dims, name="phi")
+    if case.get("lazy_coord") and len(dims) >= 1:
+        cdims = dims[: 2]
+        cvals = xr.DataArray(np.arange(int(np.prod([ds.sizes[d] for d in cdims])), dtype=float).reshape(
+            [ds.sizes[d] for d in cdims]), dims=cdims)
+        da = da.assign_coords(aux_lon=cvals)
     if lazy:
         da = da.chunk({k: tuple(v) for k, v in case["chunks"].items()})
+        if case.get("lazy_coord") and "aux_lon" in da.coords:
+            # the coordinate is lazily evaluated too, split differently than the data (size-1 chunks)
+            da = da.assign_coords(aux_lon=da["aux_lon"].variable.chunk({d: 1 for d in da["aux_lon"].dims}))
     op, ax, to = case["op"], case["axis"], case["to"]
+    if case.get("axis2") and op in ("diff", "interp", "min", "max"):
+        a2 = case["axis2"]
+        axes_ = [a2["axis"], ax] if a2["first"] else [ax, a2["axis"]]
+        return getattr(grid, op)(da, axes_, to={ax: to, a2["axis"]: a2["to"]})
     if case.get("vector"):
         # vector spelling on a grid without face connections: same numbers as the scalar spelling
         other = next((a for a in layout.axes if a["name"] != ax), None)
@@ -229,6 +270,13 @@ def eval_case(case, drv):
         cc = core_chunked if uses_dispatch else True
         ans = drv.ask(f"c06mode T {'T' if cc else 'F'} {fname if uses_dispatch else 'ufunc'} {len(positions)} {' '.join(positions)}").split(" ")
         must_refuse = ans[3] == "F"
+    if uses_dispatch and case.get("axis2"):
+        a2 = case["axis2"]
+        d2 = layout.axis(a2["axis"])["coords"][a2["from"]]
+        cc2 = len(case["chunks"][d2]) > 1
+        ans2 = drv.ask(f"c06mode T {'T' if cc2 else 'F'} {fname} 2 {a2['from']} {a2['to']}").split(" ")
+        must_refuse = must_refuse or ans2[3] == "F"
+        core_chunked = core_chunked or cc2
     if eager[0] == "err":
         ok = lazy[0] == "err"
         return {"corr_ok": True, "prop_ok": ok, "branch": "eager-refused", "detail": None if ok else {"eager": eager[1], "lazy": "returned"}}
